@@ -290,7 +290,9 @@ func (conn *Conn) h_001(line *Line) {
 		if ok {
 			conn.st.NickInfo(me.Nick, ident, host, me.Name)
 		}
-		conn.cfg.Me = conn.st.ReNick(me.Nick, nick)
+		if n := conn.st.ReNick(me.Nick, nick); n != nil {
+			conn.cfg.Me = n
+		}
 	} else {
 		conn.cfg.Me.Nick = nick
 		if ok {
@@ -322,7 +324,9 @@ func (conn *Conn) h_433(line *Line) {
 	// a NICK message to confirm our change of nick, so ReNick here...
 	if line.Args[1] == me.Nick {
 		if conn.st != nil {
-			conn.cfg.Me = conn.st.ReNick(me.Nick, neu)
+			if n := conn.st.ReNick(me.Nick, neu); n != nil {
+				conn.cfg.Me = n
+			}
 		} else {
 			conn.cfg.Me.Nick = neu
 		}
